@@ -105,6 +105,18 @@ def marshalling_python(ctx, rid, fn):
         ok = t == '[]' or re.fullmatch(r'\[-?1\] \* N', t) is not None
         ctx.inst(rid, fn, s_, ok, "initial state is empty or has N entries" if ok else
                  "init_state = `%s` is neither [] nor a list of length N: the wrapper reads len_state entries from it" % t)
+    # relabelling of the supplied initial state: position k <- label reverse_mapping[k]
+    rl = [n for n in walk_no_nested(strip_docstring(fn.node.body)) if isinstance(n, ast.For)
+          and src(n.iter) == 'reverse_mapping.items()' and isinstance(n.target, ast.Tuple)]
+    for lp in rl:
+        kk, vv = [src(e) for e in lp.target.elts]
+        okr = len(lp.body) == 1 and src(lp.body[0]) == 'init_state[%s] = initial_state[%s]' % (kk, vv)
+        ctx.inst(rid, fn, lp, okr,
+                 "initial state relabelled position <- label through the reverse mapping" if okr else
+                 "the supplied initial state is not relabelled as init_state[index] = initial_state[label] over the "
+                 "reverse mapping: spins start from the wrong variables' values")
+    if not rl:
+        ctx.inst(rid, fn, 'initial state relabelling', False, "the supplied initial state is never relabelled to positions")
     inits = [s_ for s_, v in assignments_to(fn.node, 'init_state')]
     if not inits:
         ctx.inst(rid, fn, 'init_state', False, "init_state is never built")
